@@ -471,8 +471,14 @@ fn run_sem(req: &Value) -> Value {
                 m["raw"] = rt_json(&head.schema);
                 let mut all: Vec<NamedSchema> = validators.clone();
                 all.extend(tail.iter().cloned());
-                let allrefs: Vec<&NamedSchema> = all.iter().collect();
                 m["tail"] = json!(tail.iter().map(|t| json!({"n":uuid_name(&t.name),"ty":rt_json(&t.schema),"kind":"type"})).collect::<Vec<_>>());
+                // like the frontend (semtype_to_runtype): a result that refers to itself is defined under its name
+                let self_ref = format!("{}", rt_json(&head.schema)).contains(&format!("\"n\":\"{}\"", uuid_name(&name)));
+                if self_ref {
+                    all.push(head.clone());
+                }
+                let allrefs: Vec<&NamedSchema> = all.iter().collect();
+                m["self_recursive"] = json!(self_ref);
                 m["env"] = json!(all.iter().map(|t| json!({"n":uuid_name(&t.name),"ty":rt_json(&t.schema),"kind":"type"})).collect::<Vec<_>>());
                 match head.schema.clone().remove_nots_of_intersections_and_empty_of_union(&allrefs, &mut ctx) {
                     Ok(clean) => {
